@@ -36,7 +36,8 @@ def is_epsilon_snap(s: ast.If, fw) -> bool:
     if c[0] != "rel" or c[1] != "<":
         return False
     p = c[4]
-    if not (poly_mentions(p, "abs(", "_holdings_quantity", sign=+1) and poly_mentions(p, "self._epsilon", sign=-1)):
+    # exactly  abs(position) - self._epsilon < 0 : any other tolerance is not the reviewed, negligible one
+    if not (len(p.t) == 2 and p.coeff_of_atom("self._epsilon") == Poly.const(-1) and poly_mentions(p, "abs(", "_holdings_quantity", sign=+1)):
         return False
     if len(s.body) != 1 or s.orelse or not isinstance(s.body[0], ast.Assign):
         return False
